@@ -1036,11 +1036,17 @@ func (in *inliner) expand(file *ast.File, st *site, at token.Pos, mode string, t
 	fd := st.callee.decl
 	cfile := in.fileOf(fd.Pos())
 	if _, ok := in.src[cfile]; !ok {
-		b, err := os.ReadFile(cfile)
-		if err != nil {
-			return "", false
+		// a file of this package that the walk has not come to yet: what was parsed is the overlay
+		// (a replayed patch, an earlier round), not what is on disk
+		if b, ok := in.overlay[cfile]; ok {
+			in.src[cfile] = b
+		} else {
+			b, err := os.ReadFile(cfile)
+			if err != nil {
+				return "", false
+			}
+			in.src[cfile] = b
 		}
-		in.src[cfile] = b
 	}
 	cinfo := info // the helper's own package
 	var cpkg *types.Package = in.pkg.Types
